@@ -1,4 +1,101 @@
-From Coq Require Import ZArith List.
+(* C18  File cache: contents, hits, size bound and LRU eviction over any request history.
+   Model: OSU.Model.FileCache (state machine over an explicit directory).
+   Only statements; every proof is [exact lemma]. *)
+From Coq Require Import ZArith List Bool.
 From OSU.Model Require Import FileCache.
-Theorem placeholder_init_empty : forall m p a, entries (init m p a) = nil.
-Proof. reflexivity. Qed.
+From OSU.Proofs Require Import FileCacheBase FileCacheInv FileCacheGet FileCacheHist FileCacheReq FileCacheFaults.
+Import ListNotations.
+Open Scope Z_scope.
+
+(* After ANY history of operations (gets with arbitrary fault outcomes, removes, purges, reopens,
+   touches, agings, foreign files, mode changes) from an empty directory, the invariant holds:
+   unique names; every entry is a cache-named file on disk; all time stamps are below the clock;
+   every cache-named file is complete and holds bytes of its own resource; and, while a cache
+   object is alive, every cache-named file is registered and the registered files total at most
+   the configured size. *)
+Theorem inv_all_histories : forall m p a ops, 0 <= m -> Inv (run (init m p a) ops).
+Proof. exact inv_all_histories. Qed.
+
+(* the invariant is inductive: preserved by every single operation from any state satisfying it *)
+Theorem step_preserves_invariant : forall s o, Inv s -> Inv (fst (step s o)).
+Proof. exact step_Inv. Qed.
+
+(* entries = cache files on disk, as sets and in number *)
+Theorem entries_are_exactly_the_cache_files : forall s, Inv s -> alive s = true ->
+  forall n, In n (entries s) <-> (is_cache_name n = true /\ dexists (disk s) n = true).
+Proof. exact entries_iff. Qed.
+
+Theorem len_eq_files : forall s, Inv s -> alive s = true ->
+  length (entries s) = length (cache_names_on_disk (disk s)).
+Proof. exact len_eq_files. Qed.
+
+(* a request (pairwise distinct URIs) that returns: every returned path is one of the requested
+   names, is registered afterwards, exists, is complete, holds bytes of its own resource, was used
+   during this request (so it is newer than anything older), and in particular was NOT evicted by
+   the request itself *)
+Theorem get_returned_paths : forall s l s' ps,
+  Inv s -> alive s = true -> NoDup (map q_name l) -> get s l = (s', Paths ps) ->
+  forall n, In n ps ->
+    In n (map q_name l) /\ In n (entries s') /\
+    exists f, dfind (disk s') n = Some f /\ is_complete (fcontent f) = true /\
+              (forall r k, n = CName r k -> content_res (fcontent f) = Some r) /\
+              clock s <= ftime f.
+Proof. exact get_returned_paths. Qed.
+
+(* a request consisting of cached URIs (no rejecting validation) contacts no resource *)
+Theorem hit_not_fetched : forall s l,
+  (forall q, In q l -> is_plain_hit s q) -> fetched (fst (get s l)) = fetched s.
+Proof. exact hit_not_fetched. Qed.
+
+(* distinct URIs (resource, comment) have distinct files, and a file never holds bytes of another
+   resource *)
+Theorem distinct_uris_distinct_files : forall r k r' k', CName r k = CName r' k' -> r = r' /\ k = k'.
+Proof. intros r k r' k' H. injection H as -> ->. split; reflexivity. Qed.
+
+Theorem file_holds_its_own_resource : forall s r k f, Inv s ->
+  dfind (disk s) (CName r k) = Some f -> content_res (fcontent f) = Some r /\ is_complete (fcontent f) = true.
+Proof.
+  intros s r k f [HW _] H. split; [exact (w_owner s HW r k f H) | exact (w_complete s HW (CName r k) f eq_refl H)].
+Qed.
+
+(* size bound after every operation while alive (in particular after each request) *)
+Theorem size_bound : forall s o, Inv s -> alive (fst (step s o)) = true ->
+  cache_size (fst (step s o)) <= maxb (fst (step s o)).
+Proof. intros s o H Ha. exact (proj2 (proj2 (step_Inv s o H) Ha)). Qed.
+
+(* eviction is least-recently-used first: an evicted file is never newer than one that stays *)
+Theorem evicts_lru_first : forall s, W s ->
+  forall n m f g, In n (entries s) -> ~ In n (entries (evict s)) -> In m (entries (evict s)) ->
+                  dfind (disk s) n = Some f -> dfind (disk s) m = Some g -> ftime f <= ftime g.
+Proof. exact evict_lru. Qed.
+
+(* eviction never removes a protected set that is newer than everything else and fits *)
+Theorem eviction_keeps_protected : forall (P : name -> bool) fuel s,
+  W s ->
+  (forall n m f g, In n (entries s) -> In m (entries s) -> P n = false -> P m = true ->
+                   dfind (disk s) n = Some f -> dfind (disk s) m = Some g -> ftime f < ftime g) ->
+  (forall l, NoDup l -> (forall n, In n l -> In n (entries s) /\ P n = true) -> total_size (disk s) l <= maxb s) ->
+  forall n, In n (entries s) -> P n = true ->
+            In n (entries (evict_loop fuel s)) /\ dfind (disk (evict_loop fuel s)) n = dfind (disk s) n.
+Proof. exact evict_loop_keeps. Qed.
+
+(* files that are not cache files are never modified or deleted, over any history that does not
+   itself write that foreign file *)
+Theorem foreign_untouched : forall ops s j,
+  Inv s -> forallb (fun o => negb (op_names_foreign j o)) ops = true ->
+  dfind (disk (run s ops)) (FName j) = dfind (disk s) (FName j).
+Proof. exact foreign_untouched. Qed.
+
+(* a request leaves every file it does not name unchanged, or evicts it *)
+Theorem get_frame : forall s l n,
+  W s -> ~ In n (map q_name l) -> ~ In n (map q_tmp l) ->
+  dfind (disk (fst (get s l))) n = dfind (disk s) n \/ dfind (disk (fst (get s l))) n = None.
+Proof. exact get_frame. Qed.
+
+(* non-vacuity: a concrete 3-URI history that forces two evictions satisfies every premise *)
+Definition ex_q (r : nat) := mkreq r 0 None None (DOk 0).
+Definition ex_hist : list op := [Get [ex_q 0; ex_q 1]; Get [ex_q 2]; Get [ex_q 0; ex_q 1]].
+Example ex_hist_evicts :
+  let s := run (init 2600 false true) ex_hist in
+  entries s = [CName 0 0; CName 1 0] /\ cache_size s = 2500 /\ alive s = true.
+Proof. vm_compute. repeat split; reflexivity. Qed.
